@@ -278,7 +278,9 @@ def St.manualRetry (s : St) (t : TowerId) : St × Reply :=
 def St.abandon (s : St) (t : TowerId) : St × Reply :=
   match s.client.towers t with
   | none => (s, .errUnknown)
-  | some _ => (s.withClient (s.client.removeTower t).1, .ok)
+  | some _ =>
+    -- the manager forgets the (idle) retrier of a tower that is gone
+    ({ s with client := (s.client.removeTower t).1, idle := fun x => if x = t then false else s.idle x }, .ok)
 
 /-- what a restart leaves before any retrier has run: summaries rebuilt from the file, every
 retrier gone -/
